@@ -291,7 +291,7 @@ def _ema_contract(masked):
             "ensures": ["forall(r, 0, len(group_key), implies(group_key[r] >= 0, result[r] == OutF(r)))", "forall(r, 0, len(group_key), implies(group_key[r] < 0, isnan(result[r])))"]}
 for _m in (False, True):
     register(EMAS, "_ema_grouped", f"float,mask={'bool' if _m else 'None'}", {"group_key": "arr:int:int64", "values": "arr:float:float64", "alpha": "float", "ngroups": "int", "mask": "arr:bool:bool" if _m else "none"},
-             _ema_contract(_m), specs=EMA_SPECS, props=("C05",) if _m else ("C10", "C06"))
+             dict(_ema_contract(_m), no_auto_props=_m), specs=EMA_SPECS, props=("C05",) if _m else ("C10", "C06"))      # the masked instantiation carries the known C05 finding: it serves C05 only
 
 # ---- ungrouped, row-count decay.  Leading invalid rows are unconstrained by the statement (the code leaves 0.0 there through out[-1]).
 N1 = z3.Function("N1", I, R); D1 = z3.Function("D1", I, R)
